@@ -621,6 +621,33 @@ func ruleRemapOffset(r *Report) {
 			}
 		}
 	})
+	// equivalent form: firstFile + <index of the range loop over the chunk sizes>
+	if !stepOK {
+		isLoopIndex := func(v ssa.Value) bool {
+			v = stripIntConv(v)
+			if p, ok := v.(*ssa.Phi); ok {
+				return isCountedPhi(p)
+			}
+			if bo, ok := v.(*ssa.BinOp); ok && bo.Op == token.ADD {
+				if k, isC := intConst(bo.Y); isC && k == 1 {
+					if p, ok := bo.X.(*ssa.Phi); ok {
+						return isCountedPhi(p)
+					}
+				}
+			}
+			return false
+		}
+		for _, a := range abs {
+			if args := a.Common().Args; len(args) == 3 {
+				if bo, ok := stripIntConv(args[1]).(*ssa.BinOp); ok && bo.Op == token.ADD {
+					x, y := stripIntConv(bo.X), stripIntConv(bo.Y)
+					if (fieldOfLoad(x) == "IndexRemapper.firstFile" && isLoopIndex(y)) || (fieldOfLoad(y) == "IndexRemapper.firstFile" && isLoopIndex(x)) {
+						stepOK = true
+					}
+				}
+			}
+		}
+	}
 	r.Check(subOK, rule, "RemapOffset/subtracts-chunk-size", fn.Pos(), "moving on to the next chunk subtracts this chunk's size", "the remaining offset is not reduced by the chunk's size when moving to the next chunk")
 	r.Check(stepOK, rule, "RemapOffset/file-number-steps-from-first", fn.Pos(), "the file number starts at the header's first file and advances by one per chunk", "the file number does not start at IndexRemapper.firstFile and advance by one per chunk")
 	for _, a := range abs {
